@@ -131,11 +131,12 @@ Proof. exact (parse_print_text_sep a txt). Qed.
 
 (** the meaning of a raw text *)
 Theorem C05t_add_expr_text_sem text ts a s r s' :
-  Inv s → last_len s = None →
+  Inv s → last_len s = None → max_nodes s = None →
   lexc lex_alias reserved_words lex_rules text = Some ts → parse code_prec ts = Some a →
   ok_ast s a →
   add_expr_text_ text s = (r, s') →
-  ∃ u, r = Ok u ∧ Inv s' ∧ extends s s' ∧ last_len s' = None ∧ valid s' u ∧
+  ∃ u, r = Ok u ∧ Inv s' ∧ extends s s' ∧ last_len s' = None ∧
+       max_nodes s' = None ∧ valid s' u ∧
        ∀ ρ, denv s' u ρ = asem s a ρ.
 Proof. exact (add_expr_text_sem text ts a s r s'). Qed.
 
@@ -147,10 +148,10 @@ Proof. exact (lexc_expr_text a). Qed.
 
 (** [add_expr(to_expr(u))] is [u], on the raw text returned by [to_expr] *)
 Theorem C05t_to_expr_roundtrip_raw s u :
-  Inv s → valid s u → last_len s = None →
+  Inv s → valid s u → last_len s = None → max_nodes s = None →
   ∃ txt, to_expr u s = (Ok txt, s) ∧
     ∀ r s', add_expr_text_ txt s = (r, s') →
-      r = Ok u ∧ Inv s' ∧ extends s s' ∧ last_len s' = None.
+      r = Ok u ∧ Inv s' ∧ extends s s' ∧ last_len s' = None ∧ max_nodes s' = None.
 Proof. exact (to_expr_roundtrip_raw s u). Qed.
 
 (** ** Examples: where gluing changes the reading (rule order, first match),
